@@ -84,6 +84,8 @@ def castTo (ty : String) (v : PyVal) : Option PyVal :=
   | "frozenset", .bytes "" => some (.frozenset [])
   | "dict", .dict kvs => some (.dict kvs)
   | "dict", .list [] | "dict", .tuple [] | "dict", .set [] | "dict", .frozenset [] => some (.dict [])
+  | "set", .dict kvs => some (.set (kvs.map (·.1)))
+  | "frozenset", .dict kvs => some (.frozenset (kvs.map (·.1)))
   | "list", .dict kvs => some (.list (kvs.map (·.1)))
   | "tuple", .dict kvs => some (.tuple (kvs.map (·.1)))
   | _, _ => Option.none            -- everything else: not modelled (treated as "conversion does not reproduce the value")
